@@ -15,7 +15,7 @@ class Leaf(param.Parameterized):
 
 
 class Top(param.Parameterized):
-    n = param.Integer(0, bounds=(0, 5))
+    n = param.Integer(0, bounds=(0, 5), allow_refs=True)   # assignments take the reference-aware path
     l = param.List([])
     a = param.Parameter(None)
     __slots__ = []
